@@ -8,7 +8,7 @@ use crate::with_d;
 use num::Signed;
 use std::time::Instant;
 
-pub const RULE: &str = "cases = arbitrary multigraphs (1..6 vertices with arbitrary u8 labels, 1..7 edges (thorough 10) incl. self-loops, parallel edges, several components; mass pattern none/random/all; 0..4 externals, 15% arbitrary labels; D=1..6; dyadic k/64 or decimal weights constructed so that the reference accepts ~70%); every one of the 2^E subsets of an accepted graph is compared with a union-find reference. non-trivial = accepted graph with at least two of {mixed masses, >=2 components, self-loop, externals not equal to the touched vertex set, D!=3}; distinct = distinct graph encodings";
+pub const RULE: &str = "cases = arbitrary multigraphs (1..6 vertices with arbitrary u8 labels, 1..7 edges (thorough 10) incl. self-loops, parallel edges, several components; mass pattern none/random/all; 0..4 externals, 15% arbitrary labels; D=1..6; dyadic k/64 or decimal weights constructed so that the reference accepts ~70%); every one of the 2^E subsets of an accepted graph is compared with a union-find reference. families: a base graph (E<=9), 1..4 copies differing from it in exactly one attribute (externals, one mass flag, one weight by 1..4096 ulps, two weights swapped, the dimension, one vertex label, two edges swapped) and the base graph again, built one after the other on the same thread and each compared with the reference (a table must not depend on what was built before). non-trivial = accepted graph with at least two of {mixed masses, >=2 components, self-loop, externals not equal to the touched vertex set, D!=3}; distinct = distinct graph encodings";
 
 pub fn gen_case(t: &mut Tape, tier: Tier) -> Option<G> {
     Some(gen::gen_any_graph(t, tier))
@@ -122,14 +122,34 @@ pub fn spec(tier: Tier) -> Spec<G> {
     Spec { id: "C03", rule: RULE, tape_len: 160, cases: tier.pick(120_000, 1_200_000), gen: gen_case, check, max_shrink_iters: 4000, shards: 16 }
 }
 
+pub fn gen_family(t: &mut Tape, tier: Tier) -> Option<super::family::Family> {
+    super::family::gen_family(t, tier, 9)
+}
+pub fn check_family(f: &super::family::Family, ctx: &mut Ctx) -> Result<(), Failure> {
+    super::family::check_family(f, ctx, &check)
+}
+#[derive(Clone, Debug, serde::Serialize, serde::Deserialize)]
+#[serde(untagged)]
+pub enum Any {
+    Fam(super::family::Family),
+    One(G),
+}
+pub fn check_any(c: &Any, ctx: &mut Ctx) -> Result<(), Failure> {
+    match c {
+        Any::Fam(f) => check_family(f, ctx),
+        Any::One(g) => check(g, ctx),
+    }
+}
 pub fn run(tier: Tier, seed: u64) -> i32 {
     let t0 = Instant::now();
     let sp = spec(tier);
     let mut stats = engine::run_spec(&sp, tier, seed);
-    engine::run_regressions::<G>("C03", check, &mut stats);
+    let spf = Spec { id: "C03", rule: RULE, tape_len: 220, cases: tier.pick(24_000, 240_000), gen: gen_family, check: check_family, max_shrink_iters: 2000, shards: 16 };
+    stats.merge(engine::run_spec(&spf, tier, seed ^ 0xfa3));
+    engine::run_regressions::<Any>("C03", check_any, &mut stats);
     let extra = super::fuzzrun::maybe_fuzz("C03", "graph_table", tier, seed, &mut stats, serde_json::json!({}));
     engine::finish("C03", tier, seed, RULE, stats, t0, extra, &["union-find reference model and exact rational arithmetic (num::BigRational) are correct", "table read through the sampler's serde serialisation (serde_json)"])
 }
 pub fn replay(path: &str) -> i32 {
-    engine::replay_file::<G>("C03", path, check)
+    engine::replay_file::<Any>("C03", path, check_any)
 }
